@@ -154,6 +154,8 @@ pub fn cases(prop: &str, tier: Tier, seed: u64) -> Vec<CaseDesc> {
             for (n, b) in [(64, 60), (127, 127), (128, 128), (500, 129), (2000, 60)] {
                 base.push(format!("leb:{}:{}:{}", n, b, seed % 7));
             }
+            // hand-written shapes, among them modules without any function body
+            base.extend(corpus::gcedge_specs());
             // function entries beyond 32 KiB and 64 KiB (buffer growth and reuse in the per-function work)
             base.push("lebb:6:60:70000".to_string());
             base.push("lebb:3:20:40000".to_string());
@@ -181,7 +183,7 @@ pub fn cases(prop: &str, tier: Tier, seed: u64) -> Vec<CaseDesc> {
             bases.push("gcedge:elem_funcref_expr_global_get.wat".to_string());
             let mut i = 0usize;
             for b in &bases {
-                for (ver, mode) in [(4, "f"), (5, "f"), (4, "s"), (5, "s"), (5, "z")] {
+                for (ver, mode) in [(4, "f"), (5, "f"), (4, "s"), (5, "s"), (5, "z"), (4, "a"), (5, "a"), (4, "n"), (5, "n")] {
                     let spec = format!("dwarf:{}:{}:{}", ver, mode, b);
                     let scn = match i % 5 { 0 => "rt:emit;cfg=27", 1 => "rt:emit,gc;cfg=27", 2 => "rt:emit,ins;cfg=27", 3 => "rt:emit,addfn;cfg=27", _ => "rt:emit,reedit;cfg=27" };
                     i += 1;
@@ -256,6 +258,10 @@ pub fn cases(prop: &str, tier: Tier, seed: u64) -> Vec<CaseDesc> {
         }
         "C08" => {
             out.extend(with_scenario(disk_corpus(false), "rt:emit,emit2,fix,shift,reedit"));
+            // the output of the GC pass must be a fixpoint as well
+            out.extend(with_scenario(disk_corpus(false), "rt:emit,fix,gc"));
+            out.extend(with_scenario(crate::census::attr_specs(), "rt:emit,fix,gc"));
+            out.extend(with_scenario(g("gcgraph", 700, 30_000), "rt:emit,fix,gc"));
             // outputs of edited modules are walrus's own output as well: fixpoint after adding named imports
             out.extend(with_scenario(g("names", 400, 15_000), "rt:addimp"));
             out.extend(with_scenario(g("full", 300, 10_000), "rt:addimp"));
